@@ -267,8 +267,24 @@ P["C09"] = ("""C09 — drain removes exactly the requested range and keeps the r
 P["C10"] = ("""C10 — leaking a drain is safe: after mem::forget at any point of any
    script the state is well formed, its contents (the model: none) are drawn
    from the original ones and disjoint from what was yielded, no destructor ran;
-   every later operation is covered by the theorems for well-formed states.""", "", [
-    ("C10_drain_forget", "forall sb eb script, refines_op (ODrain sb eb script true)", "drain_forget_op")])
+   every later operation is covered by the theorems for well-formed states.""", " LedgerSpec", [
+    ("C10_drain_forget", "forall sb eb script, refines_op (ODrain sb eb script true)", "drain_forget_op"),
+    # afterwards: the state is well formed and the world fault-free, so every history continues to refine the
+    # specification, and the ledger (which books the un-restored elements as forgotten) stays duplicate-free
+    ("C10_then_any_history", """forall ops s w,
+  WF s -> fault w = None -> ops_ok s ops ->
+  let '(rs, s', w') := run_history ops s w in
+  let '(srs, l', evs, nid') := spec_history (cap s) (abs s) ops (next_id w) in
+  results_ok ops srs rs /\\ abs s' = l' /\\ WF s' /\\ cap s' = cap s /\\ w' = wev w evs nid'""", "history_refines"),
+    ("C10_never_destroyed_twice", """forall (s0 : cbuf) (w0 : world),
+  WF s0 -> fault w0 = None -> NoDup (ids (abs s0)) ->
+  (forall e, In e (abs s0) -> eid e < next_id w0) ->
+  forall ops s w L,
+  ledger_run s0 w0 ops s w L ->
+  NoDup (ids (abs s ++ lg_caller L ++ lg_destroyed L)) /\\
+  Permutation (abs s ++ lg_caller L ++ lg_destroyed L) (lg_entered L) /\\
+  NoDup (ids (lg_entered L))""", "ledger_history exec_refines"),
+])
 
 P["C11"] = ("""C11 — operations panic exactly when documented and are otherwise total.
    [C11_total_or_documented]: on every well-formed state, for every operation
